@@ -18,6 +18,26 @@ from bqskit.runtime import get_runtime
 _logger = logging.getLogger(__name__)
 
 
+def _permute_target(
+    target: UnitaryMatrix | StateVector | StateSystem,
+    Pi: PermutationMatrix,
+    Po: PermutationMatrix,
+) -> UnitaryMatrix | StateVector | StateSystem:
+    """Return what `Po.T @ target @ Pi` must do, for every kind of target."""
+    if isinstance(target, StateVector):
+        # The all-zero input state is invariant under input permutations
+        return StateVector(Po.T.numpy @ target.numpy, target.radixes)
+
+    if isinstance(target, StateSystem):
+        return StateSystem({
+            StateVector(Pi.T.numpy @ vin.numpy, vin.radixes):
+            StateVector(Po.T.numpy @ target[vin].numpy, vin.radixes)
+            for vin in target
+        })
+
+    return Po.T @ target @ Pi
+
+
 def op_count(circuit: Circuit) -> float:
     """Counts the number of operations in a circuit."""
     return float(circuit.num_operations)
@@ -90,17 +110,24 @@ class PermutationAwareSynthesisPass(SynthesisPass):
             for p in perms
         ]
 
+        I = PermutationMatrix.from_qudit_location(
+            width, utry.radixes[0], no_perm[0],
+        )
+
         if self.input_perm and self.output_perm:
             permsbyperms = list(it.product(perms, perms))
-            targets = [Po.T @ utry @ Pi for Pi, Po in it.product(Pis, Pos)]
+            targets = [
+                _permute_target(utry, Pi, Po)
+                for Pi, Po in it.product(Pis, Pos)
+            ]
 
         elif self.input_perm:
             permsbyperms = list(it.product(perms, no_perm))
-            targets = [utry @ Pi for Pi in Pis]
+            targets = [_permute_target(utry, Pi, I) for Pi in Pis]
 
         elif self.output_perm:
             permsbyperms = list(it.product(no_perm, perms))
-            targets = [Po.T @ utry for Po in Pos]
+            targets = [_permute_target(utry, I, Po) for Po in Pos]
 
         else:
             _logger.warning('No permutation is being used in PAS.')
